@@ -1012,3 +1012,102 @@ pub fn generate(ctx: &mut Ctx) {
         }
     }
 }
+
+// ---------------------------------------------------------------------------------------------
+// table by execution (`hsverif dump c06`): the second source of the region prefix list of `find_timezone`.
+// gen/zones.py reads the list from the source text; when the text no longer has the shape it parses, the list is
+// measured here: a region is a prefix iff a city that exists under that region only is resolved through it, the
+// order is the one the resolution of every ambiguous name dictates (ties: alphabetical), and the resulting list is
+// accepted only if "first prefix p with p/name a zone" reproduces the real function on EVERY zone id and every
+// suffix of a zone id.
+// ---------------------------------------------------------------------------------------------
+fn resolve_zone_name(name: &str) -> Option<String> {
+    use chrono::TimeZone;
+    let epoch = chrono::FixedOffset::east_opt(0).unwrap().timestamp_opt(0, 0).single().unwrap();
+    std::panic::catch_unwind(|| libhaystack::timezone::make_date_time_with_tz(&epoch, name).ok().map(|d| d.timezone().name().to_string()))
+        .ok()
+        .flatten()
+}
+
+pub fn dump_tables() {
+    use std::collections::{BTreeMap, BTreeSet};
+    let ids: Vec<String> = gen::all_zones().iter().map(|z| z.name().to_string()).collect();
+    let idset: BTreeSet<&str> = ids.iter().map(|s| s.as_str()).collect();
+    // every text that follows a '/' of a zone id, with the ids it is a suffix of
+    let mut names: BTreeSet<String> = ids.iter().cloned().collect();
+    for id in &ids {
+        for (i, c) in id.char_indices() {
+            if c == '/' {
+                names.insert(id[i + 1..].to_string());
+            }
+        }
+    }
+    let real: BTreeMap<String, Option<String>> = names.iter().map(|n| (n.clone(), resolve_zone_name(n))).collect();
+    // candidate prefixes: every `p` such that `p/name` is a zone id for some name that is not a zone id itself and resolves to it
+    let mut cands: BTreeSet<String> = BTreeSet::new();
+    for (n, r) in &real {
+        if idset.contains(n.as_str()) {
+            continue;
+        }
+        if let Some(z) = r {
+            if z.ends_with(&format!("/{n}")) {
+                cands.insert(z[..z.len() - n.len() - 1].to_string());
+            }
+        }
+    }
+    // order constraints from the ambiguous names: the winner's prefix comes before every other candidate prefix that has the name
+    let mut before: BTreeSet<(String, String)> = BTreeSet::new();
+    for (n, r) in &real {
+        if idset.contains(n.as_str()) {
+            continue;
+        }
+        if let Some(z) = r {
+            if !z.ends_with(&format!("/{n}")) {
+                continue;
+            }
+            let w = z[..z.len() - n.len() - 1].to_string();
+            for p in &cands {
+                if *p != w && idset.contains(format!("{p}/{n}").as_str()) {
+                    before.insert((w.clone(), p.clone()));
+                }
+            }
+        }
+    }
+    // topological order, alphabetical among the free ones
+    let mut order: Vec<String> = Vec::new();
+    let mut left: BTreeSet<String> = cands.clone();
+    let mut cyclic = false;
+    while !left.is_empty() {
+        let next = left.iter().find(|p| !before.iter().any(|(a, b)| b == *p && left.contains(a))).cloned();
+        match next {
+            Some(p) => {
+                left.remove(&p);
+                order.push(p);
+            }
+            None => {
+                cyclic = true;
+                break;
+            }
+        }
+    }
+    // the list must reproduce the real function on every name
+    let mut mismatches: Vec<String> = Vec::new();
+    for (n, r) in &real {
+        let model = if idset.contains(n.as_str()) {
+            Some(n.clone())
+        } else {
+            order.iter().map(|p| format!("{p}/{n}")).find(|c| idset.contains(c.as_str()))
+        };
+        if &model != r {
+            mismatches.push(n.clone());
+        }
+    }
+    let q = |s: &String| serde_json::to_string(s).unwrap();
+    println!(
+        "{{\"prefixes\":[{}],\n\"names_checked\":{},\n\"cyclic\":{},\n\"mismatches\":[{}]}}",
+        order.iter().map(q).collect::<Vec<_>>().join(","),
+        real.len(),
+        cyclic,
+        mismatches.iter().take(20).map(q).collect::<Vec<_>>().join(",")
+    );
+}
